@@ -118,7 +118,7 @@ fn scen(_spec: RunSpec) -> ScenFut {
             inner.put(&Path::from(path.clone()), PutPayload::from(bytes.clone())).await.unwrap();
             setup.register_chunk(&path, &ChunkMetadata { path: path.clone(), min_timestamp: *mn, max_timestamp: *mx, row_count: 2, size_bytes: bytes.len() as u64 }).await.unwrap();
             seed_meta.insert(path.clone(), (*mn, *mx, kind.to_string()));
-            seeds.push(SeedChunk { path, ids: rows.iter().map(|r| r.id).collect(), min: *mn, max: *mx, level: 0, size: bytes.len() as u64 });
+            seeds.push(SeedChunk { path, ids: rows.iter().map(|r| r.id).collect(), rows: vec![], min: *mn, max: *mx, level: 0, size: bytes.len() as u64 });
         }
         sim::set_cfg(|c| c.enabled = true);
         let versions_before = store::versions("catalog.json").len();
@@ -251,7 +251,7 @@ fn scen(_spec: RunSpec) -> ScenFut {
                     let path = format!("default/data/fed/fed_{k}.parquet");
                     if fstore.put(&Path::from(path.clone()), PutPayload::from(bytes.clone())).await.is_ok() {
                         let _ = fmeta.register_chunk(&path, &ChunkMetadata { path: path.clone(), min_timestamp: mn, max_timestamp: mn + 1, row_count: 2, size_bytes: bytes.len() as u64 }).await;
-                        fids.lock().unwrap().push(SeedChunk { path, ids: vec![], min: mn, max: mn + 1, level: 0, size: bytes.len() as u64 });
+                        fids.lock().unwrap().push(SeedChunk { path, ids: vec![], rows: vec![], min: mn, max: mn + 1, level: 0, size: bytes.len() as u64 });
                     }
                 }
             }
